@@ -451,7 +451,7 @@ def setup_worker():
                 g.park(who, "llm", fut)
                 await fut
                 self.log.add("released", conv=who, what="llm")
-            return self.script(prompt)
+            return self.script(prompt, who)
 
         def _call(self, prompt, stop=None, run_manager=None, **kw):
             raise RuntimeError("sync LLM path is not part of this workload")
@@ -538,7 +538,15 @@ def last_user(prompt):
     return None
 
 
-def make_script(mode, answers, default):
+def conv_keys(case):
+    """what distinguishes the LLM's sampling between conversations: a digest of everything the conversation's FIRST request
+    carries - conversations that begin identically (families `prefix`, `samereply`) are told the same things, as the
+    history cache, which identifies a conversation by its message list, legitimately assumes"""
+    return {i: hashlib.sha1(json.dumps(c["turns"][0], sort_keys=True).encode()).hexdigest()[:10] for i, c in enumerate(case["convs"])}
+
+
+def make_script(mode, answers, default, keys=None):
+    keys = keys or {}
     def reply(prompt):
         u = last_user(prompt)
         if u is not None and u in answers:
@@ -547,7 +555,7 @@ def make_script(mode, answers, default):
             return "Sure thing."
         return "H" + hashlib.sha1(prompt.encode()).hexdigest()[:8]
 
-    def script(prompt):
+    def script(prompt, who=None):
         tail = prompt.rstrip("\n").split("\n")[-1]
         if mode == "v2":
             if "user intent:" in tail:
@@ -571,7 +579,7 @@ def make_script(mode, answers, default):
                 return "  ask other" if int(hashlib.sha1(tail.encode()).hexdigest()[:2], 16) % 2 else "  ask something"
             if tail.startswith("user ask") and tail.endswith("flow"):
                 # (the texts are not part of this prompt: the kind of flow the LLM writes is keyed on the intent)
-                slug = "".join("abcdefghij"[int(c, 16) % 10] for c in hashlib.sha1(prompt.encode()).hexdigest()[:6])
+                slug = "".join("abcdefghij"[int(c, 16) % 10] for c in hashlib.sha1(("%s|conv%s" % (prompt, keys.get(who))).encode()).hexdigest()[:6])
                 if tail.endswith("waitflow"):  # a generated flow that spans several turns
                     return "bot ask %s\nuser provide name\nbot thank %s\nuser provide name\nbot bye %s" % (slug, slug, slug)
                 if tail.endswith("failflow"):  # a generated flow that fails after it has started
@@ -579,7 +587,10 @@ def make_script(mode, answers, default):
                 if tail.endswith("loopflow"):  # a generated flow that never ends
                     return "bot answer %s\n$n = 0\nwhile $n < 1\n  bot again %s" % (slug, slug)
             if tail.startswith("user ask") or tail.startswith("user provide"):
-                slug = "".join("abcdefghij"[int(c, 16) % 10] for c in hashlib.sha1(reply(prompt).encode()).hexdigest()[:6])
+                # (the next-steps prompt shows intents only, no texts: two conversations with the same intent history would
+                #  be told the same steps. A real LLM samples: the steps written for one conversation differ from those
+                #  written for another - here by conversation index, the same in the shared run and in the isolated replay)
+                slug = "".join("abcdefghij"[int(c, 16) % 10] for c in hashlib.sha1(("%s|conv%s" % (reply(prompt), keys.get(who))).encode()).hexdigest()[:6])
                 return "bot answer %s\nbot add %s" % (slug, slug[::-1])
             return '  "%s"' % reply(prompt)
         if mode == "single_call":
@@ -609,7 +620,7 @@ class Inst:
         self.last_state = {}
         self.gate = None
         self.gate_rails = False
-        self.llm = W["GatedLLM"](script=make_script(mode, case["answers"], case["default"]), log=self.log)
+        self.llm = W["GatedLLM"](script=make_script(mode, case["answers"], case["default"], conv_keys(case)), log=self.log)
         self.app = L["LLMRails"](cfg, llm=self.llm)
         if mode == "multi_step" and hasattr(self.app.runtime, "max_events"):
             # the runtime's event budget per request (500 by default; every event replays the history): an endless generated
